@@ -286,35 +286,54 @@ theorem handlers_check_credentials :
   intro k; cases k <;> rfl
 
 /-- how the two permission lookups read the options (regenerated from their source):
-    `not key_options.get('no-' + p, False)` and `cert_options.get('permit-' + p, False)`, `True` without a
-    certificate -/
+    `not key_options.get('no-' + p, False)`; `cert_options.get('permit-' + p, False)` under the guard
+    `cert_options is not None` — a presence test, so that a certificate carrying no option at all (the empty
+    dictionary) is still a certificate — and `True` without a certificate -/
 theorem permission_lookup_rules :
     Gen.C20.keyOptionPrefix = "no-" ∧ Gen.C20.keyOptionDefault = false ∧ Gen.C20.keyOptionRevokes = true ∧
     Gen.C20.certOptionPrefix = "permit-" ∧ Gen.C20.certOptionDefault = false ∧
-    Gen.C20.certAbsentPermits = true := by
+    Gen.C20.certAbsentPermits = true ∧ Gen.C20.certGuardIsPresenceTest = true := by
   decide
 
+/-- the lookups of the checked tree, as the decision model uses them -/
+theorem lookup_semantics (k : KeyOpts) (c : Option CertOpts) :
+    keyPermits Gen.C20.lookup k = !k.noPortForwarding ∧
+    (certPermits Gen.C20.lookup c = true ↔ ∀ co, c = some co → co.permitPortForwarding = true) := by
+  refine ⟨?_, ?_⟩
+  · cases h : k.noPortForwarding <;> simp [keyPermits, Gen.C20.lookup, h] <;> decide
+  · cases c with
+    | none => simp [certPermits, Gen.C20.lookup]; decide
+    | some co =>
+      cases h : co.permitPortForwarding <;>
+        simp [certPermits, Gen.C20.lookup, Gen.C20.certGuardIsPresenceTest, Gen.C20.certOptionDefault, h]
+
 /-- **forward_only_if_permitted** (clause "served only if the server application and the credential's restrictions
-    permit that destination"): for every request kind, key options, certificate options, destination and
-    application answer, a channel or listener is created only if the key does not carry no-port-forwarding, the
-    certificate (if one was used) carries permit-port-forwarding, the destination of a direct-tcpip open is
-    covered by permitopen (if present), and the application said yes. -/
+    permit that destination"): for every request kind, key options, certificate options — including the
+    certificate that carries no option at all —, destination and application answer, a channel or listener is
+    created only if the key does not carry no-port-forwarding, the certificate (if one was used) carries
+    permit-port-forwarding, the destination of a direct-tcpip open is covered by permitopen (if present), and the
+    application said yes. -/
 theorem forward_only_if_permitted (kind : ReqKind) (k : KeyOpts) (c : Option CertOpts) (d : Dest) (app : Bool)
-    (h : (decideReq (Gen.C20.checksOf kind) k c d app).1 = .created) :
+    (h : (decideReq Gen.C20.lookup (Gen.C20.checksOf kind) k c d app).1 = .created) :
     k.noPortForwarding = false ∧ (∀ co, c = some co → co.permitPortForwarding = true) ∧
     (kind = .directTcpip → permitopenAllows k d = true) ∧ app = true := by
-  cases kind <;> cases c <;>
-    simp [decideReq, permittedBy, Gen.C20.checksOf, keyPermits, certPermits] at h ⊢ <;>
-    (repeat' split at h) <;> simp_all
+  have hk := (lookup_semantics k c).1
+  have hc := (lookup_semantics k c).2
+  cases hcp : certPermits Gen.C20.lookup c
+  · cases kind <;> simp [decideReq, permittedBy, Gen.C20.checksOf, hcp] at h
+  · have hc' := hc.mp hcp
+    cases kind <;>
+      simp [decideReq, permittedBy, Gen.C20.checksOf, hk, hcp] at h ⊢ <;>
+      (repeat' split at h) <;> simp_all
 
 /-- **denied requests create nothing and are not shown to the application**; a refusal by the application
     creates nothing either. -/
 theorem denied_creates_nothing (kind : ReqKind) (k : KeyOpts) (c : Option CertOpts) (d : Dest) (app : Bool) :
-    (permittedBy (Gen.C20.checksOf kind) k c d = false →
-      decideReq (Gen.C20.checksOf kind) k c d app = (.prohibited, false)) ∧
-    (app = false → (decideReq (Gen.C20.checksOf kind) k c d app).1 ≠ .created) ∧
-    (permittedBy (Gen.C20.checksOf kind) k c d = true → app = true →
-      decideReq (Gen.C20.checksOf kind) k c d app = (.created, true)) := by
+    (permittedBy Gen.C20.lookup (Gen.C20.checksOf kind) k c d = false →
+      decideReq Gen.C20.lookup (Gen.C20.checksOf kind) k c d app = (.prohibited, false)) ∧
+    (app = false → (decideReq Gen.C20.lookup (Gen.C20.checksOf kind) k c d app).1 ≠ .created) ∧
+    (permittedBy Gen.C20.lookup (Gen.C20.checksOf kind) k c d = true → app = true →
+      decideReq Gen.C20.lookup (Gen.C20.checksOf kind) k c d app = (.created, true)) := by
   refine ⟨?_, ?_, ?_⟩
   · intro h; simp [decideReq, h]
   · intro h; subst h; simp only [decideReq]; split <;> simp
@@ -328,7 +347,7 @@ def opensshRule (kind : ReqKind) (k : KeyOpts) (c : Option CertOpts) (d : Dest) 
 
 /-- **the decision is OpenSSH's rule** for `no-port-forwarding`, `permit-port-forwarding` and `permitopen`. -/
 theorem permitted_iff_openssh_rule (kind : ReqKind) (k : KeyOpts) (c : Option CertOpts) (d : Dest) :
-    permittedBy (Gen.C20.checksOf kind) k c d = true ↔ opensshRule kind k c d := by
+    permittedBy Gen.C20.lookup (Gen.C20.checksOf kind) k c d = true ↔ opensshRule kind k c d := by
   have hpo : permitopenAllows k d = true ↔
       (k.permitopen = [] ∨ ∃ e ∈ k.permitopen, e.1 = d.host ∧ (e.2 = none ∨ e.2 = some d.port)) := by
     unfold permitopenAllows
@@ -345,23 +364,38 @@ theorem permitted_iff_openssh_rule (kind : ReqKind) (k : KeyOpts) (c : Option Ce
         rcases h2 with h2 | h2 <;> subst h2
         · exact Or.inr hm
         · exact Or.inl (Or.inr hm)
-  have hc : certPermits c = true ↔ ∀ co, c = some co → co.permitPortForwarding = true := by
-    cases c <;> simp [certPermits]
+  have hk := (lookup_semantics k c).1
+  have hc := (lookup_semantics k c).2
   cases kind <;>
-    simp only [permittedBy, Gen.C20.checksOf, opensshRule, keyPermits, Bool.not_true, Bool.false_or,
+    simp only [permittedBy, Gen.C20.checksOf, opensshRule, hk, Bool.not_true, Bool.false_or,
       Bool.not_false, Bool.true_or, Bool.and_true, Bool.and_eq_true, Bool.not_eq_true', hc, hpo] <;>
     simp [and_assoc]
+
+/-- **a certificate that grants nothing is still a certificate**: the certificate carrying no option at all (its
+    options decode to the empty dictionary) and the one carrying only critical options or other permits are
+    refused every kind of forwarding request, without the application being asked -/
+theorem empty_certificate_refused (kind : ReqKind) (k : KeyOpts) (d : Dest) (app other : Bool) :
+    decideReq Gen.C20.lookup (Gen.C20.checksOf kind) k (some ⟨false, other⟩) d app = (.prohibited, false) := by
+  have h : permittedBy Gen.C20.lookup (Gen.C20.checksOf kind) k (some ⟨false, other⟩) d = false := by
+    cases hp : permittedBy Gen.C20.lookup (Gen.C20.checksOf kind) k (some ⟨false, other⟩) d
+    · rfl
+    · have := ((permitted_iff_openssh_rule kind k (some ⟨false, other⟩) d).mp hp).2.1 _ rfl
+      cases this
+  exact (denied_creates_nothing kind k _ d app).1 h
 
 /-- non-vacuity: `permitopen="a:80",permitopen="b:*"` admits a:80 and b:9 but not a:81; no-port-forwarding and a
     certificate without the extension deny; the application is not asked then -/
 theorem permission_example :
     let k : KeyOpts := { permitopen := [([97], some 80), ([98], none)] }
-    decideReq (Gen.C20.checksOf .directTcpip) k none ⟨[97], 80⟩ true = (.created, true) ∧
-    decideReq (Gen.C20.checksOf .directTcpip) k none ⟨[98], 9⟩ true = (.created, true) ∧
-    decideReq (Gen.C20.checksOf .directTcpip) k none ⟨[97], 81⟩ true = (.prohibited, false) ∧
-    decideReq (Gen.C20.checksOf .tcpipForward) k none ⟨[97], 81⟩ false = (.refusedByApp, true) ∧
-    decideReq (Gen.C20.checksOf .tcpipForward) { noPortForwarding := true } none ⟨[97], 81⟩ true = (.prohibited, false) ∧
-    decideReq (Gen.C20.checksOf .directStreamlocal) {} (some ⟨false⟩) ⟨[97], 0⟩ true = (.prohibited, false) := by
+    let l := Gen.C20.lookup
+    decideReq l (Gen.C20.checksOf .directTcpip) k none ⟨[97], 80⟩ true = (.created, true) ∧
+    decideReq l (Gen.C20.checksOf .directTcpip) k none ⟨[98], 9⟩ true = (.created, true) ∧
+    decideReq l (Gen.C20.checksOf .directTcpip) k none ⟨[97], 81⟩ true = (.prohibited, false) ∧
+    decideReq l (Gen.C20.checksOf .tcpipForward) k none ⟨[97], 81⟩ false = (.refusedByApp, true) ∧
+    decideReq l (Gen.C20.checksOf .tcpipForward) { noPortForwarding := true } none ⟨[97], 81⟩ true = (.prohibited, false) ∧
+    decideReq l (Gen.C20.checksOf .directStreamlocal) {} (some ⟨false, true⟩) ⟨[97], 0⟩ true = (.prohibited, false) ∧
+    decideReq l (Gen.C20.checksOf .tcpipForward) {} (some ⟨false, false⟩) ⟨[97], 0⟩ true = (.prohibited, false) ∧
+    decideReq l (Gen.C20.checksOf .tcpipForward) {} (some ⟨true, false⟩) ⟨[97], 0⟩ true = (.created, true) := by
   decide
 
 /-- `permitopen` values: last colon splits, brackets are dropped, `*` is the wildcard -/
